@@ -9,6 +9,9 @@ CONSTANTS
   MaxClosed = 5
   MaxBal = 1
   MaxVals = 0
+  Gaps = {1}
+  RFs <- RFsZero
+  Ivs = {"Daily"}
 INVARIANTS TypeC16 GenerateIsBatch AccSheet WinRateSane ProfitFactorSane OrderFreeC16
 PROPERTIES Keyed Additive LatestBalance PersistIsStutter
 CHECK_DEADLOCK FALSE
